@@ -7,8 +7,8 @@ ASSUMPTIONS = [
 ]
 
 M = "a*+?()[]|\\.^$-{}1,:<>P"
-H09 = [r"a+b", r"(a)|b", r"[a-c]x", r"a{1,2}", r"(?i)ab", r"\d+x", r"(?P<n>a)b", r"a\.b", r"^ab$", r"a|b|c", r"[^a]b", r"(a*)+b", r"x{2}y"]
-QUICK = [r"a+b", r"(a)|b", r"\d+x"]
+H09 = [r"(?P<n>a){2}", r"(?:x(?P<n>y)){1,2}", r"a+b", r"(a)|b", r"[a-c]x", r"a{1,2}", r"(?i)ab", r"\d+x", r"(?P<n>a)b", r"a\.b", r"^ab$", r"a|b|c", r"[^a]b", r"(a*)+b", r"x{2}y"]
+QUICK = [r"(?P<n>a){2}", r"a+b", r"(a)|b", r"\d+x"]
 
 
 def holes(p):
@@ -24,12 +24,19 @@ def items(tier):
         out.append(mk("C09", "", "QuoteMetaCompile", L, "hex:" + ("a.\\".encode().hex() + "c3a9ff" if tier == "quick" else "ab.*\\[".encode().hex() + "c3a9ff"), timeout_s=900))
     for p in (QUICK if tier == "quick" else H09):
         for hp, i in holes(p):
-            d = mk("C09", hp, "compile", 0, "set:" + M, timeout_s=600)
+            d = mk("C09", hp, "compile", 0, "set:" + M, timeout_s=600, extra=p[i])
             d["id"] = "C09|%s|compile|hole%d" % (p, i)
             out.append(d)
         if tier != "quick":
             for hp, i in holes(p):
-                d = mk("C09", hp, "compileposix", 0, "set:" + M, timeout_s=600)
+                d = mk("C09", hp, "compileposix", 0, "set:" + M, timeout_s=600, extra=p[i])
+                d["id"] = "C09|%s|compileposix|hole%d" % (p, i)
+                out.append(d)
+    if tier == "quick":
+        # CompilePOSIX acceptance on Perl-only syntax (regexp rejects \d, lazy operators, flags)
+        for p in [r"\d+", r"a+?"]:
+            for hp, i in holes(p):
+                d = mk("C09", hp, "compileposix", 0, "set:" + M, timeout_s=600, extra=p[i])
                 d["id"] = "C09|%s|compileposix|hole%d" % (p, i)
                 out.append(d)
     if tier != "quick":
